@@ -139,11 +139,13 @@ pub fn single_op<S: Src>(s: &mut S) {
 /// `Bus::write` routing at the concrete port `p` (real `Bus::write`): three operations from reset with
 /// symbolic kinds and values; after every step DR reads per the model and the announcement is right.
 /// A neighbouring non-port register is written too and must stay plain storage.
-pub fn history3<S: Src>(s: &mut S, p: u8) {
-    let ops = [s.u8(), s.u8(), s.u8()];
-    let vals = [s.u8(), s.u8(), s.u8()];
+pub const DEPTH_MAX: usize = 5;
+
+pub fn history3<S: Src>(s: &mut S, p: u8, depth: usize) {
+    let ops = [s.u8(), s.u8(), s.u8(), s.u8(), s.u8()];
+    let vals = [s.u8(), s.u8(), s.u8(), s.u8(), s.u8()];
     let nb = s.u8();
-    s.assume(ops[0] <= 2 && ops[1] <= 2 && ops[2] <= 2);
+    s.assume(ops[0] <= 2 && ops[1] <= 2 && ops[2] <= 2 && ops[3] <= 2 && ops[4] <= 2);
     let mut cpu = Cpu::new();
     attach(&mut cpu);
     let q: u8 = if p == 1 { 2 } else { 1 };
@@ -160,7 +162,7 @@ pub fn history3<S: Src>(s: &mut S, p: u8) {
     let mut announced: Option<u8> = None;
     let mut seen = 0usize;
     let mut k = 0;
-    while k < 3 {
+    while k < depth && k < DEPTH_MAX {
         let v = vals[k];
         let out0 = l & d;
         if ops[k] == OP_DDR {
